@@ -321,8 +321,8 @@ class VersionEval:
                     continue
                 # the branch must reject: contains `return <nonzero>`
                 rets = [x for x in walk(n["then"]) if x["k"] == "Return"]
-                if rets and all(is_node(r.get("e")) and r["e"].get("val") not in (None, 0) for r in rets):
-                    return cond, accepted_when  # accepted iff cond evaluates to accepted_when
+                if rets and all(is_node(r.get("e")) and r["e"].get("val") != 0 for r in rets):
+                    return cond, accepted_when  # accepted iff cond evaluates to accepted_when (`return 2;` / `return fail(2);`)
         raise AnalysisBroken("NifFile::Load: version acceptance test not found")
 
     def accepted(self, ver):
